@@ -275,6 +275,18 @@ var c03Patterns = []string{
 	"do { if ($0) continue; H.p(90, 0) } while (0); return 2;",
 	"x: { if ($0) break x; H.p(90, 0) } return 2;",
 	"x: for (;;) { for (;;) { if ($0) break x; return 1 } } return 2;",
+	"function f(x = $0) {} f(); return 1;",
+	"function f(x = $0) {} f(undefined); f(1); return 1;",
+	"function f(x, y = $0) {} return f(1);",
+	"function f({x = $0}) {} f({}); return 1;",
+	"function f([x = $0]) {} f([]); return 1;",
+	"function f(x = $0) { return x } return f();",
+	"var f = function(x = $0) {}; f(); return 1;",
+	"var f = (x = $0) => {}; f(); return 1;",
+	"function f(x) {} return f($0);",
+	"function f(x) { return x } return f($0);",
+	"function f(x) { return x } return f($0, $1);",
+	"function f(...x) {} f($0); return 1;",
 	"switch (1) { case 1: return $0 } return 2;",
 	"switch ($0) { } return 2;",
 	"switch ($0) { default: } return 2;",
@@ -588,6 +600,12 @@ func runC03(c *Check) {
 		sp.segs = append(sp.segs, segDepth3(pickCtx("return")[0], red))
 	}
 	sp.segs = append(sp.segs, c03PatternSpace(c03Trees(c.Tier)))
+	sp.segs = append(sp.segs, c03SwitchSpace(c.Tier))
+	if c.Tier == "quick" {
+		sp.segs = append(sp.segs, segPairsLeaf("return/if*reduced*slot*reduced*slot*constant", pickCtx("return", "if"), red, red, []string{"0", "1", "\"\"", "null", "undefined"}))
+	} else {
+		sp.segs = append(sp.segs, segPairsLeaf("ctx*reduced*slot*reduced*slot*constant", pickCtx("return", "stmt", "if", "cond-test"), red, red, []string{"0", "1", "\"\"", "null", "undefined", "true", "NaN", "\"s\"", "-0", "1n", "[]", "{}"}))
+	}
 	x.runSpace(sp)
 	y := *x
 	y.calls = xCallsStmt
